@@ -12,6 +12,7 @@ import (
 	"encoding/json"
 	"errors"
 	"fmt"
+	"io"
 	"io/ioutil"
 	"net/http"
 	"reflect"
@@ -238,6 +239,13 @@ const DefaultSchemaTemplate = `{
 // https://www.w3.org/TR/vc-data-model/#data-schemas
 const jsonSchema2018Type = "JsonSchemaValidator2018"
 
+// The location of a credential's schema is chosen by the issuer of the credential: the default download client gives
+// up after schemaDownloadTimeout and no more than schemaMaxSize bytes of an answer are read.
+const (
+	schemaDownloadTimeout = 10 * time.Second
+	schemaMaxSize         = 4 << 20
+)
+
 const (
 	// https://www.w3.org/TR/vc-data-model/#base-context
 	baseContext = "https://www.w3.org/2018/credentials/v1"
@@ -349,7 +357,7 @@ func (b *CredentialSchemaLoaderBuilder) Build() *CredentialSchemaLoader {
 	l := b.loader
 
 	if l.schemaDownloadClient == nil {
-		l.schemaDownloadClient = &http.Client{}
+		l.schemaDownloadClient = &http.Client{Timeout: schemaDownloadTimeout}
 	}
 
 	if l.jsonLoader == nil {
@@ -1299,7 +1307,7 @@ func getCredentialOpts(opts []CredentialOpt) *credentialOpts {
 
 func newDefaultSchemaLoader() *CredentialSchemaLoader {
 	return &CredentialSchemaLoader{
-		schemaDownloadClient: &http.Client{},
+		schemaDownloadClient: &http.Client{Timeout: schemaDownloadTimeout},
 		jsonLoader:           defaultSchemaLoader(),
 	}
 }
@@ -1542,9 +1550,13 @@ func loadJSONSchema(url string, client *http.Client) ([]byte, error) {
 
 	var gotBody []byte
 
-	gotBody, err = ioutil.ReadAll(resp.Body)
+	gotBody, err = ioutil.ReadAll(io.LimitReader(resp.Body, schemaMaxSize+1))
 	if err != nil {
 		return nil, fmt.Errorf("credential schema: read response body: %w", err)
+	}
+
+	if len(gotBody) > schemaMaxSize {
+		return nil, fmt.Errorf("credential schema: response body is larger than %d bytes", schemaMaxSize)
 	}
 
 	return gotBody, nil
